@@ -180,7 +180,9 @@ var entryWords = []string{"foo", "fob", "bar", "baz", "ab", "abc", "abd", "x", "
 var entryAtoms = []string{"a", "b", "c", "x", "y", "z", "0", "9", "_", "-", "/", ":", "=", "%", "#", "!", "<", ">", ",", ";", "&", "'", "~", "@", " ",
 	"\\.", "\\(", "\\)", "\\[", "\\|", "\\*", "\\+", "\\?", "\\$", "\\^", "\\{", "\\\\", "\"", "\\\"", "\\/", "\\-",
 	"[a-c]", "[^a]", "[^\\n]", "[\\s\\S]", "[abx]", "[0-9]", "[a-z0-9_]", "[ -/]", "[\\s -/]", "[\\x00\\s]", "[\\x01-\\x08\\s]", "[\"']", "[\\\\]", "[^\"\\\\]", "[\\w.-]",
-	"(\\(?i)", "(?:a\\(?s)", "\\(?i:x", "\\d", "\\s", "\\w", "\\S", "\\D", "\\W", ".", "\\x41", "\\x{e9}", "\\x0b", "\\n", "\\t", "\\r", "é", "\\x5c", "\\x22"}
+	"(\\(?i)", "(?:a\\(?s)", "\\(?i:x", "\\d", "\\s", "\\w", "\\S", "\\D", "\\W", ".", "\\x41", "\\x{e9}", "\\x0b", "\\n", "\\t", "\\r", "é", "\\x5c", "\\x22",
+	// texts in which one final pass sees what an earlier one wrote: an escaped backslash in front of the characters of the space class, of a quote, of a flag group
+	"\\\\t\\n\\f\\r ", "\\\\s", "\\\\\"", "\\\\(?:a)", "[\\t\\n\\f\\r ]", "\\\\[\\s]", "\\x5c\\t\\n\\f\\r x"}
 var entryQuants = []string{"", "", "", "", "*", "+", "?", "{2}", "{1,3}", "{0,2}", "*?", "+?", "{2,}"}
 
 func genSeq(r *Rng, depth int, lower bool) string {
